@@ -59,6 +59,11 @@ def cond_parts(t: Term):
     tf = kw(t, "true_fun", 1)
     ff = kw(t, "false_fun", 2)
     ops = t[2][3:]
+    # cond(not p, A, B) selects like cond(p, B, A)
+    while pred is not None and (is_call(pred, "jax.numpy.logical_not", "numpy.logical_not")
+                                or (pred[0] == "u" and pred[1] in ("not", "~"))):
+        pred = pred[2][0] if pred[0] == "call" else pred[2]
+        tf, ff = ff, tf
     return pred, tf, ff, ops
 
 
